@@ -145,6 +145,9 @@ func (p *HTTPProxy) ServeHTTP(w http.ResponseWriter, r *http.Request) {
 		Host:   t.URL.Host,
 		Path:   r.URL.Path,
 	}
+	// keep the percent-encoding the client used (RawPath is only set when it
+	// differs from the default encoding of Path, e.g. for %2F)
+	targetURL.RawPath = r.URL.RawPath
 	if t.URL.RawQuery == "" || r.URL.RawQuery == "" {
 		targetURL.RawQuery = t.URL.RawQuery + r.URL.RawQuery
 	} else {
@@ -168,6 +171,15 @@ func (p *HTTPProxy) ServeHTTP(w http.ResponseWriter, r *http.Request) {
 		if !strings.HasPrefix(targetURL.Path, "/") {
 			targetURL.Path = "/" + targetURL.Path
 		}
+		// strip the encoded form the same way or fall back to the default encoding
+		if strings.HasPrefix(targetURL.RawPath, t.StripPath) {
+			targetURL.RawPath = targetURL.RawPath[len(t.StripPath):]
+			if !strings.HasPrefix(targetURL.RawPath, "/") {
+				targetURL.RawPath = "/" + targetURL.RawPath
+			}
+		} else {
+			targetURL.RawPath = ""
+		}
 	}
 
 	if t.PrependPath != "" {
@@ -176,6 +188,12 @@ func (p *HTTPProxy) ServeHTTP(w http.ResponseWriter, r *http.Request) {
 		// section 5.3 of RFC7230 (https://tools.ietf.org/html/rfc7230#section-5.3)
 		if !strings.HasPrefix(targetURL.Path, "/") {
 			targetURL.Path = "/" + targetURL.Path
+		}
+		if targetURL.RawPath != "" {
+			targetURL.RawPath = t.PrependPath + targetURL.RawPath
+			if !strings.HasPrefix(targetURL.RawPath, "/") {
+				targetURL.RawPath = "/" + targetURL.RawPath
+			}
 		}
 	}
 
